@@ -282,7 +282,11 @@ func newWriterBuffer(min int) *bytes.Buffer {
 		return bytes.NewBuffer(make([]byte, min))
 	}
 	if v := writerBufferPool.Get(); v != nil {
-		return v.(*bytes.Buffer)
+		// MessageBufferLength may have been raised since the buffer
+		// was pooled.
+		if b := v.(*bytes.Buffer); cap(b.Bytes()) >= min {
+			return b
+		}
 	}
 	return bytes.NewBuffer(make([]byte, MessageBufferLength))
 }
